@@ -15,7 +15,23 @@ BG = "magpylib/_src/obj_classes/class_BaseGeo.py"
 
 # (property, name, file, old, new, expect)   expect: "red" | "equivalent" (must stay green)
 FD = "magpylib/_src/fields/"
+FWB = FD + "field_wrap_BH.py"
 MUTANTS = [
+    ("C03", "level1-forward-rotation", FWB, "orientation.apply(observers - position, inverse=True)", "orientation.apply(observers - position)", "red"),
+    ("C03", "level1-back-rotation-inverse", FWB, "        BH = orientation.apply(BH)", "        BH = orientation.apply(BH, inverse=True)", "red"),
+    ("C06", "src-pose-tiling-order", FWB, "    posv = np.tile(poss, n_pix).reshape((-1, 3))", "    posv = np.repeat(poss, n_pix, axis=0).reshape((-1, 3))", "red"),
+    ("C06", "tile-first-pose", FWB, "            tile_pos = np.tile(obj._position[-1], (m_tile, 1))", "            tile_pos = np.tile(obj._position[0], (m_tile, 1))", "red"),
+    ("C06", "group-order-reversed", FWB, '            B[group["order"][gr_ind]] = B_group[gr_ind]', '            B[group["order"][-1 - gr_ind]] = B_group[gr_ind]', "red"),
+    ("C06", "property-tiling-tile-not-repeat", FWB, "    return np.repeat(out, n_pp, axis=0)", "    return np.tile(out, (n_pp,) + (1,) * (np.ndim(out) - 1))", "red"),
+    ("C04", "handedness-column", FWB, "            B[..., pix_slice, 0] *= -1", "            B[..., pix_slice, 1] *= -1", "red"),
+    ("C04", "sensor-rot-forward", FWB, "            Bpart_flat_rot = sens_orient.inv().apply(Bpart_flat)", "            Bpart_flat_rot = sens_orient.apply(Bpart_flat)", "red"),
+    ("C04", "sensor-repeat-count", FWB, "sens._orientation.as_quat(), pix_nums[sens_ind], axis=0", "sens._orientation.as_quat(), pix_nums[0], axis=0", "red"),
+    ("C04", "pixel-agg-axis", FWB, "            B = pixel_agg_func(B, axis=tuple(range(3 - B.ndim, -1)))", "            B = pixel_agg_func(B, axis=tuple(range(4 - B.ndim, -1)))", "red"),
+    ("C04", "pixel-position-before-rotation", FWB, "                else r.apply(sens.pixel.reshape(-1, 3))\n            )\n            + p", "                else r.apply(sens.pixel.reshape(-1, 3) + p) - p\n            )\n            + p", "red"),
+    ("C05", "collection-sum-drops-first", FWB, "                B[src_ind] = np.sum(B[src_ind : src_ind + col_len], axis=0)", "                B[src_ind] = np.sum(B[src_ind + 1 : src_ind + col_len], axis=0) if col_len > 1 else B[src_ind]", "red"),
+    ("C05", "sumup-mean", FWB, "        B = np.sum(B, axis=0, keepdims=True)", "        B = np.mean(B, axis=0, keepdims=True)", "red"),
+    ("C05", "cuboid-null-mask-ignores-z", FD + "field_BH_cuboid.py", "        (pol_x == 0) * (pol_y == 0) * (pol_z == 0)\n    )  # 2x faster than np.all()", "        (pol_x == 0) * (pol_y == 0)\n    )", "red"),
+    ("C05", "sphere-inside-affine", FD + "field_BH_sphere.py", "    BHJM *= 2 / 3\n", "    BHJM = BHJM * (2 / 3) + 1e-4 * (r < 0.01)[:, None]\n", "red"),
     ("C12", "cuboid-absolute-surface-tol", FD + "field_BH_cuboid.py", "    mask_inside_x = x_dist < RTOL_SURFACE * a", "    mask_inside_x = x_dist < 1e-12", "red"),
     ("C12", "cylinder-z-not-dimensionless", FD + "field_BH_cylinder.py", "    z = z / r0\n    z0 = z0 / r0", "    z0 = z0 / r0", "red"),
     ("C12", "circle-absolute-singularity-tol", FD + "field_BH_circle.py", "abs(r - r0) < 1e-15 * r0", "abs(r - r0) < 1e-15", "red"),
